@@ -69,8 +69,10 @@ pub fn joback_for(n: usize, rng: &mut Rng) -> Arc<IdealGasModel> {
                 JobackRecord::new(
                     rng.range(20.0, 60.0),
                     rng.range(0.01, 0.2),
-                    rng.range(-1e-4, 1e-4),
-                    rng.range(-1e-8, 1e-8),
+                    // non-negative higher coefficients: c_p stays positive and the enthalpy
+                    // monotone at every temperature the workloads reach
+                    rng.range(0.0, 2e-5),
+                    rng.range(0.0, 2e-9),
                     0.0,
                 ),
             )
